@@ -166,7 +166,7 @@ pub fn cfg_strategy(kind: Kind, p: &Profile) -> BoxedStrategy<Cfg> {
     let hs = prop::sample::select(p.hashers.clone());
     let hs4 = (hs.clone(), hs.clone(), hs.clone(), hs.clone()).prop_map(|(a, b, c, d)| [a, b, c, d]);
     let th = p.thorough;
-    let tiny = move || if th { prop_oneof![8 => 1usize..=4, 2 => 5usize..=9].boxed() } else { (1usize..=4).boxed() };
+    let tiny = move || if th { prop_oneof![8 => 1usize..=4, 2 => 5usize..=12].boxed() } else { prop_oneof![18 => 1usize..=4, 1 => 5usize..=8, 1 => 9usize..=12].boxed() };
     match kind {
         Kind::Lru | Kind::LruCb | Kind::LruCbD | Kind::Arc => (small_cap(th), hs4)
             .prop_map(|(a, hs)| {
@@ -203,7 +203,7 @@ pub fn cfg_strategy(kind: Kind, p: &Profile) -> BoxedStrategy<Cfg> {
             })
             .boxed(),
         Kind::Wtl => {
-            let w = move || if th { prop_oneof![8 => 1usize..=3, 2 => 4usize..=8].boxed() } else { (1usize..=3).boxed() };
+            let w = move || if th { prop_oneof![8 => 1usize..=3, 2 => 4usize..=10].boxed() } else { prop_oneof![18 => 1usize..=3, 2 => 4usize..=10].boxed() };
             let khs = prop::sample::select(p.key_hashers.clone());
             (w(), w(), w(), 1usize..=64, prop::sample::select(vec![1e-9, 0.01, 0.3, 0.9]), khs, hs4, any::<u64>())
                 .prop_map(|(a, b, c_, samples, fp, kh, hs, seed)| {
@@ -231,13 +231,20 @@ pub fn case_strategy(p: &Profile) -> BoxedStrategy<Case> {
         .prop_flat_map(move |(kind, cfg, strpick)| {
             let cap = cfg.total_cap(kind);
             let lo = (cap + 1) as u16;
-            let hi = (3 * cap + 3).min(200) as u16;
+            // large capacities get a narrow alphabet (so hits, evictions and ghost hits stay common)
+            let hi = if cap > 8 { (cap + 6).min(250) as u16 } else { (3 * cap + 3) as u16 };
             let p4 = p3.clone();
-            (Just(kind), Just(cfg), Just(strpick), lo..=hi.max(lo)).prop_flat_map(move |(kind, cfg, strpick, a)| {
+            (Just(kind), Just(cfg), Just(strpick), lo..=hi.max(lo), 0u32..100).prop_flat_map(move |(kind, cfg, strpick, a, prefill)| {
                 let cap = cfg.total_cap(kind);
                 let ops = prop::collection::vec(op_strategy(kind, a, cap, &p4), 0..=p4.max_ops);
                 let keys = if strpick < p4.str_pct { KeyMode::Str } else { KeyMode::Tracked };
-                (Just(kind), Just(cfg), Just(keys), Just(a), ops).prop_map(|(kind, cfg, keys, alphabet, ops)| Case { kind, cfg, keys, alphabet, ops })
+                // a large cache is useless to a 40-op history unless it starts (nearly) full:
+                // 2/3 of the large-capacity cases begin with one put per distinct key
+                let fill: Vec<Op> = if cap > 8 && prefill < 66 { (0..(cap as u16 + (prefill % 3) as u16)).map(|k| Op::Put(k % a.max(1))).collect() } else { vec![] };
+                (Just(kind), Just(cfg), Just(keys), Just(a), Just(fill), ops).prop_map(|(kind, cfg, keys, alphabet, mut fill, ops)| {
+                    fill.extend(ops);
+                    Case { kind, cfg, keys, alphabet, ops: fill }
+                })
             })
         })
         .boxed()
